@@ -79,6 +79,8 @@ def gen(rng, i, tier):
         phases=0.65, max_depth=rng.choice([4, 6, 10]), sleep=0.8, iq=0.6, shape=rng.choice([None, "chain", "bushy"]),
         phase_conf=0.4, rails=rng.choice([0.0, 0.4]),
     )
+    if i % 5 == 2:
+        base = G.variantise_phases(base, rng)  # two phases that differ only in case / blanks
     spec, causes = plant(rng, base)
     case = {"spec": spec, "tol": 1e-6, "ta": 25.0, "causes": causes}
     case.update(_rows.random_call_context(rng))
